@@ -140,17 +140,78 @@ fn bbox<T: Sx, B: Bz<T>>(axis: usize, three: bool) {
         }
     }
 }
+/// Cut for one triangle inequality |u + v| <= |u| + |v| between the radicals `rs = sqrt(rad_s)`, `ru = sqrt(u.u)`,
+/// `rv = sqrt(v.v)` (all built by the harness from `u`, `v`): Lagrange's identity and the sum-of-squares fact are
+/// solver-checked lemmas (polynomial), then the inequality is decided with u.u, v.v, u.v and the radicand of the sum
+/// abstracted to fresh variables (6 variables, degree 2). The proved inequality becomes a hypothesis of `into`.
+fn triangle_cut<T: Sx>(tag: &str, into: &str, u: &[T], v: &[T], ru: T, rv: T, rs: T, rad_s: T) {
+    let dot = |a: &[T], b: &[T]| a.iter().zip(b).fold(k::<T>(0), |s, (x, y)| s + *x * *y);
+    let (aa, bb, dd) = (dot(u, u), dot(v, v), dot(u, v));
+    let mut sos = k::<T>(0);
+    let mut ws = vec![];
+    for i in 0..u.len() {
+        for j in i + 1..u.len() {
+            let w = u[i] * v[j] - u[j] * v[i];
+            ws.push(w);
+            sos = sos + w * w;
+        }
+    }
+    let (g_tri, g_sos) = (format!("{}tri/", tag), format!("{}sos/", tag));
+    abstract_terms(&g_sos, &ws);
+    lemma(&g_tri, &format!("{}lagrange |u|^2|v|^2-(u.v)^2 = sum of squared minors", tag), eq(aa * bb - dd * dd, sos));
+    lemma(&g_tri, &format!("{}sum of squares >= 0", g_sos), ge(sos, k(0)));
+    lemma(&g_tri, &format!("{}|u+v|^2 = |u|^2+|v|^2+2u.v", tag), eq(rad_s, aa + bb + k::<T>(2) * dd));
+    abstract_terms(&g_tri, &[aa, bb, dd, rad_s, sos]);
+    lemma(into, &format!("{}|u+v| <= |u|+|v|", g_tri), le(rs, ru + rv));
+}
 fn length<T: Sx, B: Bz<T>>(n: u16) {
     let p = crate::scen::c14::sym_pts::<T>("p", B::DEG + 1, B::DIM);
     let c = B::of(&p);
     let l = c.length(n);
-    let dist = |a: &[T], b: &[T]| (0..a.len()).fold(k::<T>(0), |s, i| s + (a[i] - b[i]) * (a[i] - b[i])).sqrt();
-    let chord = dist(&p[0], &p[B::DEG]);
-    let poly = (0..B::DEG).fold(k::<T>(0), |s, i| s + dist(&p[i], &p[i + 1]));
-    goal("at least the chord", ge(l, chord));
-    goal("at most the control polygon", le(l, poly));
+    let norm2 = |a: &[T]| a.iter().fold(k::<T>(0), |s, x| s + *x * *x);
+    let sub = |a: &[T], b: &[T]| -> Vec<T> { a.iter().zip(b).map(|(x, y)| *x - *y).collect() };
+    let dist = |a: &[T], b: &[T]| norm2(&sub(a, b)).sqrt();
+    let chord = dist(&p[B::DEG], &p[0]);
+    let poly = (0..B::DEG).fold(k::<T>(0), |s, i| s + dist(&p[i + 1], &p[i]));
+    // the samples the documentation promises (step_count + 1 equal parameter steps), at equal parameter steps; "len/" goals may use: the code's sum is the sum of the harness's segment radicals (L0, a solver-checked
+    // lemma: equal radicands, hence equal roots) and one triangle inequality per step (cuts above)
+    // (points taken through the curve's own `evaluate` — C14's subject — so that the radicands are the very terms
+    // the code built and L0 is decided by congruence rather than by expanding 2(n+1) polynomials)
+    let samples = |m: i64| -> Vec<Vec<T>> { (0..=m).map(|i| c.eval(T::q(i, m))).collect() };
+    let m = n as i64 + 1;
+    let pts = samples(m);
+    let seg: Vec<T> = (1..=m as usize).map(|i| dist(&pts[i], &pts[i - 1])).collect();
+    lemma("len/", "L0 length = sum of the sample-to-sample distances", eq(l, seg.iter().fold(k::<T>(0), |s, x| s + *x)));
+    // chord: |P_k - P_0| <= |P_{k-1} - P_0| + |P_k - P_{k-1}| for k = 2..m
+    let from0: Vec<T> = (0..=m as usize).map(|i| if i == 0 { k(0) } else { dist(&pts[i], &pts[0]) }).collect();
+    for i in 2..=m as usize {
+        let (u, v) = (sub(&pts[i - 1], &pts[0]), sub(&pts[i], &pts[i - 1]));
+        triangle_cut(&format!("chord{}:", i), "len/", &u, &v, from0[i - 1], seg[i - 1], from0[i], norm2(&sub(&pts[i], &pts[0])));
+    }
+    lemma("len/", "L1 the last sample is the end point", eq(from0[m as usize], chord));
+    goal("len/at least the chord", ge(l, chord));
+    if n == 0 {
+        // one segment: the chord itself, which the control polygon bounds by B::DEG - 1 triangle inequalities
+        let from0p: Vec<T> = (0..=B::DEG).map(|i| if i == 0 { k(0) } else { dist(&p[i], &p[0]) }).collect();
+        for i in 2..=B::DEG {
+            let (u, v) = (sub(&p[i - 1], &p[0]), sub(&p[i], &p[i - 1]));
+            triangle_cut(&format!("poly{}:", i), "len/", &u, &v, from0p[i - 1], dist(&p[i], &p[i - 1]), from0p[i], norm2(&sub(&p[i], &p[0])));
+        }
+    }
+    goal("len/at most the control polygon", le(l, poly));
     if n <= 1 {
-        goal("refinement by doubling does not decrease", ge(c.length(2 * n + 1), l));
+        let lf = c.length(2 * n + 1);
+        let fine = samples(2 * m);
+        let fseg: Vec<T> = (1..=2 * m as usize).map(|i| dist(&fine[i], &fine[i - 1])).collect();
+        lemma("len/", "L0 refined length = sum of the refined distances", eq(lf, fseg.iter().fold(k::<T>(0), |s, x| s + *x)));
+        for i in 1..=m as usize {
+            // coarse segment i is split at the refined sample 2i-1
+            let (u, v) = (sub(&fine[2 * i - 1], &fine[2 * i - 2]), sub(&fine[2 * i], &fine[2 * i - 1]));
+            let coarse = dist(&fine[2 * i], &fine[2 * i - 2]);
+            triangle_cut(&format!("refine{}:", i), "len/", &u, &v, fseg[2 * i - 2], fseg[2 * i - 1], coarse, norm2(&sub(&fine[2 * i], &fine[2 * i - 2])));
+            lemma("len/", &format!("L2 coarse segment {} spans two refined ones", i), eq(coarse, seg[i - 1]));
+        }
+        goal("len/refinement by doubling does not decrease", ge(lf, l));
     }
 }
 /// bounded closest-point search: `steps` coarse samples, at most `max_decisions` refinement decisions
